@@ -127,13 +127,43 @@ def single_threaded_edges(world, E):
                     if j.bb.id in f.reachable_from(c.bb.id) and not (c.bb.id == j.bb.id and c.idx > j.idx):
                         ok = False   # a join can still follow c
                         break
-                    if not any(g in f.dom().get(c.bb.id, ()) for g in guards) and not f.dominates(j, c):
+                    if not any(g in f.dom().get(c.bb.id, ()) for g in guards) and not f.dominates(j, c) and not _join_loop_done(f, j, c):
                         ok = False
                         break
                 if ok:
                     out.add((f.name, c.id))
                     why[(f.name, c.id)] = "after all joins in %s" % f.name
     return out, why
+
+
+def _join_loop_done(f, j, c):
+    """the join sits in a counted loop (`for (i = 0; i < N; i++) if (*h[i] != 0) join`) that has finished when c runs: c lies outside the loop, the loop head
+    dominates c, every iteration passes the guard of the join, and the loop runs at least once (constant start below the constant bound)"""
+    from . import rules
+    for h, body in f.loops().items():
+        if j.bb.id not in body or c.bb.id in body:
+            continue
+        if not (h == c.bb.id or h in f.dom().get(c.bb.id, ())):
+            continue
+        latches = [p for p in f.bmap[h].pred if p in body]
+        guards = [g for g in j.bb.pred if g in body]
+        if not guards or not all(any(g == l or g in f.dom().get(l, ()) for g in guards) for l in latches):
+            continue
+        t = f.bmap[h].term
+        if t.op != "br" or "cond" not in t.d:
+            continue
+        cnd = f.resolve(t["cond"])
+        if cnd is None or cnd.op != "icmp" or cnd["pred"] not in ("ult", "slt", "ne"):
+            continue
+        n = rules.const_of(f, cnd["b"])
+        src = rules.load_source(f, cnd["a"])
+        if n is None or not src or src[0] != "alloca":
+            continue
+        sts = [s for s in f.all_insts() if s.op == "store" and s["ptr"].get("k") == "inst" and s["ptr"]["id"] == src[1]]
+        inits = [s for s in sts if s.bb.id not in body]
+        if len(inits) == 1 and rules.const_of(f, inits[0]["val"]) is not None and rules.const_of(f, inits[0]["val"]) < n and f.dominates(inits[0], t):
+            return True
+    return False
 
 
 def concurrent_contexts(world, E):
